@@ -11,6 +11,7 @@
 #include <sys/wait.h>
 #include <tuple>
 #include <unistd.h>
+#include <covfie/core/algebra/affine.hpp>
 #include <covfie/core/backend/primitive/array.hpp>
 #include <covfie/core/backend/primitive/constant.hpp>
 #include <covfie/core/backend/primitive/identity.hpp>
@@ -270,6 +271,96 @@ static std::string outcome_in_child(std::size_t tid, const std::string & bytes, 
     return "exit-" + std::to_string(rc);      // sanitizer reports exit with 66 / 67
 }
 
+// ------------------------------------------------------------------ huge instances (beyond any block / buffer size)
+// Fields with 10^5..10^6 stored vectors are dumped to a real file and loaded back by the same type and by its other-precision
+// twin.  The harness compares EVERY stored scalar (bit pattern; other precision: against the conversion the format
+// prescribes) and the re-dump; for TLC it logs the stream's structure - every limb before and after the payload, the total
+// length, and the limbs of sampled scalars (block boundaries and random positions) in the file and in both reloaded fields -
+// which Trace_Golden!THuge judges against the grammar and the Widen / Narrow functions of the specification.
+template <typename B> struct kind_of;
+template <typename S, std::size_t M> struct kind_of<arr<S, M>> { static json j() { return {{"k", "array"}, {"m", M}, {"w", sizeof(S) / 2}}; } };
+template <typename I, typename X> struct kind_of<cb::strided<I, X>> { static json j() { return {{"k", "strided"}, {"n", I::size}}; } };
+template <typename I, typename X, bool P> struct kind_of<cb::morton<I, X, P>> { static json j() { return {{"k", "morton"}, {"n", I::size}}; } };
+template <typename X> struct kind_of<cb::affine<X>> { static json j() { return {{"k", "affine"}, {"n", X::contravariant_input_t::dimensions}, {"cw", sizeof(typename X::contravariant_input_t::scalar_t) / 2}}; } };
+template <typename X, typename I> struct kind_of<cb::linear<X, I>> { static json j() { return {{"k", "linear"}}; } };
+template <typename X, typename I> struct kind_of<cb::nearest_neighbour<X, I>> { static json j() { return {{"k", "nearest"}}; } };
+
+template <typename B, typename O>
+static void describe(const O & o, json & out, std::size_t & wrappers) {
+    json l = kind_of<B>::j();
+    if constexpr (is_array<B>::value) { l["count"] = (std::size_t)o.get_configuration()[0]; l["data"] = json::array(); }
+    else { l["cfg"] = cfg_to<B>(o.get_configuration()); if (l["k"] != "linear" && l["k"] != "nearest") ++wrappers; }
+    out.push_back(l);
+    if constexpr (!B::is_initial) describe<typename B::backend_t>(o.get_backend(), out, wrappers);
+}
+template <typename B, typename O, typename Fn>
+static void with_array(const O & o, Fn fn) {
+    if constexpr (is_array<B>::value) fn(std::type_identity<B>{}, o);
+    else with_array<typename B::backend_t>(o.get_backend(), fn);
+}
+static float pattern(std::size_t k) {   // finite, sign / exponent / mantissa all varying, some zeros and subnormals
+    uint64_t x = (k + 1) * 0x9E3779B97F4A7C15ull; x ^= x >> 29;
+    if (k % 97 == 0) return k % 2 ? 0.0f : -0.0f;
+    uint32_t bits = (uint32_t)x; if (((bits >> 23) & 0xFF) == 0xFF) bits &= ~(1u << 30);
+    float f; std::memcpy(&f, &bits, 4); return f;
+}
+static std::string slurp(const std::string & fn) { std::ifstream in(fn, std::ios::binary); std::stringstream ss; ss << in.rdbuf(); return ss.str(); }
+
+template <typename B, typename X, typename Make>
+static void huge_case(const std::string & name, Make make, rng & r, const std::string & tmp, std::ofstream & out) {
+    ++g_cases;
+    covfie::field<B> f = make(std::type_identity<B>{});
+    std::size_t count = 0, m = 0, w = 0;
+    with_array<B>(f.backend(), [&](auto tag, const auto & o) {
+        using AB = typename decltype(tag)::type; using S = typename AB::vector_t::value_type;
+        typename AB::non_owning_data_t v(o); count = o.get_configuration()[0]; m = AB::vector_t::dimensions; w = sizeof(S);
+        for (std::size_t k = 0; k < count * m; ++k) v.at(k / m)[k % m] = (S)pattern(k);      // (float patterns are exact in double)
+    });
+    json ctx = {{"case", name}, {"vectors", count}, {"components", m}};
+    const std::string fn = tmp + ".huge";
+    { std::ofstream os(fn, std::ios::binary); f.dump(os); }
+    const std::string bytes = slurp(fn);
+    json layers = json::array(); std::size_t wrappers = 0; describe<B>(f.backend(), layers, wrappers);
+    const std::size_t suffix = 8 * (wrappers + 2), payload = count * m * w;
+    ++g_checks;
+    if (bytes.size() < suffix + payload + 8) { mismatch("io/huge-length/" + name, {{"ctx", ctx}, {"bytes", bytes.size()}}); std::remove(fn.c_str()); return; }
+    const std::size_t prefix = bytes.size() - suffix - payload;
+    // same type back: every scalar bit-identical, re-dump byte-identical
+    std::vector<std::size_t> samples = {0, 1, 2, count * m - 1, count * m - 2};
+    for (std::size_t b : {4096ul, 8192ul, 16384ul, 32768ul, 43690ul, 43691ul, 65536ul, 87381ul, 87382ul, 131072ul, 174762ul, 262144ul, 524288ul})
+        for (long d = -1; d <= 1; ++d) for (std::size_t mul : {std::size_t(1), m}) if (b * mul + d < count * m) samples.push_back(b * mul + d);
+    for (int q = 0; q < 40; ++q) samples.push_back(r.below(count * m));
+    json js = json::array();
+    try {
+        std::ifstream is(fn, std::ios::binary); covfie::field<B> g(is);
+        std::ifstream is2(fn, std::ios::binary); covfie::field<X> h(is2);
+        long bad = 0, badx = 0; std::size_t first = 0, firstx = 0;
+        with_array<B>(g.backend(), [&](auto tag, const auto & o) {
+            using AB = typename decltype(tag)::type; using S = typename AB::vector_t::value_type;
+            typename AB::non_owning_data_t v(o);
+            ++g_checks; if ((std::size_t)o.get_configuration()[0] != count) { mismatch("io/huge-count/" + name, ctx); return; }
+            for (std::size_t k = 0; k < count * m; ++k) { S x = v.at(k / m)[k % m], e = (S)pattern(k); if (std::memcmp(&x, &e, sizeof x) != 0 && !bad++) first = k; }
+            with_array<X>(h.backend(), [&](auto tagx, const auto & ox) {
+                using AX = typename decltype(tagx)::type; using SX = typename AX::vector_t::value_type;
+                typename AX::non_owning_data_t vx(ox);
+                if ((std::size_t)ox.get_configuration()[0] != count) { mismatch("io/huge-count-other-precision/" + name, ctx); return; }
+                for (std::size_t k = 0; k < count * m; ++k) { SX x = vx.at(k / m)[k % m]; volatile SX e = static_cast<SX>((S)pattern(k)); SX ee = e; if (std::memcmp(&x, &ee, sizeof x) != 0 && !badx++) firstx = k; }
+                for (std::size_t k : samples) { S a = v.at(k / m)[k % m]; SX b = vx.at(k / m)[k % m];
+                    js.push_back({{"i", k}, {"file", to_limbs(bytes.data() + prefix + k * w, w)}, {"same", to_limbs(&a, sizeof a)}, {"other", to_limbs(&b, sizeof b)}}); }
+            });
+        });
+        g_checks += 2 * (long)(count * m);
+        if (bad) mismatch("io/huge-reload-differs/" + name, {{"ctx", ctx}, {"differing_scalars", bad}, {"first_scalar_index", first}});
+        if (badx) mismatch("io/huge-other-precision-differs/" + name, {{"ctx", ctx}, {"differing_scalars", badx}, {"first_scalar_index", firstx}});
+        { std::ofstream os(fn + "2", std::ios::binary); g.dump(os); }
+        ++g_checks; if (slurp(fn + "2") != bytes) mismatch("io/huge-redump-bytes/" + name, ctx);
+        std::remove((fn + "2").c_str());
+    } catch (const std::exception & e) { ++g_checks; mismatch("io/huge-load-threw/" + name, {{"ctx", ctx}, {"what", e.what()}}); }
+    std::remove(fn.c_str());
+    out << json({{"e", "huge"}, {"name", name}, {"layers", layers}, {"prefix", to_limbs(bytes.data(), prefix)}, {"suffix", to_limbs(bytes.data() + prefix + payload, suffix)},
+                 {"odd", bytes.size() % 2}, {"kbytes", bytes.size() / 1024}, {"rbytes", bytes.size() % 1024}, {"wfile", w / 2}, {"wother", w == 4 ? 4 : 2}, {"samples", js}}).dump() << "\n";
+}
+
 int main(int argc, char ** argv) {
     install_terminate();
     std::string mode = argv[1];
@@ -422,6 +513,35 @@ int main(int argc, char ** argv) {
             out << json({{"e", "dump"}, {"tid", tid}, {"limbs", to_limbs(bytes.data(), bytes.size())}, {"odd", bytes.size() % 2}, {"layers", layers},
                          {"reload_rc", rc}, {"reloaded", loaded}}).dump() << "\n";
             ++g_cases;
+        }
+        summary({{"events", g_cases}});
+    } else if (mode == "huge") {   // huge <seed> <out> [thorough]
+        rng r(std::strtoull(argv[2], nullptr, 10));
+        std::ofstream out(argv[3]);
+        const bool more = argc > 4;
+        const std::string tmp = argv[3];
+        auto st3 = [&](std::size_t a, std::size_t b, std::size_t c) { return [=](auto tag) { using B = typename decltype(tag)::type; return covfie::field<B>(covfie::make_parameter_pack(typename B::configuration_t{a, b, c})); }; };
+        auto st2 = [&](std::size_t a, std::size_t b) { return [=](auto tag) { using B = typename decltype(tag)::type; return covfie::field<B>(covfie::make_parameter_pack(typename B::configuration_t{a, b})); }; };
+        auto st1 = [&](std::size_t a) { return [=](auto tag) { using B = typename decltype(tag)::type; return covfie::field<B>(covfie::make_parameter_pack(typename B::configuration_t{a})); }; };
+        huge_case<cb::strided<sz<3>, arr<float, 3>>, cb::strided<sz<3>, arr<double, 3>>>("strided3-float3-48", st3(48, 48, 48), r, tmp, out);
+        huge_case<cb::strided<sz<3>, arr<double, 3>>, cb::strided<sz<3>, arr<float, 3>>>("strided3-double3-47x45x43", st3(47, 45, 43), r, tmp, out);
+        huge_case<cb::strided<sz<3>, arr<float, 3>>, cb::strided<sz<3>, arr<double, 3>>>("strided3-float3-64", st3(64, 64, 64), r, tmp, out);
+        huge_case<cb::strided<sz<2>, arr<float, 2>>, cb::strided<sz<2>, arr<double, 2>>>("strided2-float2-700x530", st2(700, 530), r, tmp, out);
+        huge_case<cb::morton<sz<2>, arr<float, 3>>, cb::morton<sz<2>, arr<double, 3>>>("morton2-float3-300x290", [&](auto tag) { using B = typename decltype(tag)::type;
+            covfie::field<cb::strided<sz<2>, arr<float, 3>>> rowmajor(covfie::make_parameter_pack(typename B::configuration_t{300, 290})); return covfie::field<B>(rowmajor); }, r, tmp, out);
+        huge_case<cb::strided<sz<1>, arr<double, 1>>, cb::strided<sz<1>, arr<float, 1>>>("strided1-double1-2^20+3", st1((1u << 20) + 3), r, tmp, out);
+        // an interpolating stack written with one method and precision, read with the other (C07)
+        {
+            using core_f = cb::strided<sz<3>, arr<float, 3>>; using core_d = cb::strided<sz<3>, arr<double, 3>>;
+            auto mk = [&](auto tag) { using B = typename decltype(tag)::type;
+                auto a = covfie::algebra::affine<3>::scaling(0.25f, 0.5f, 0.125f) * covfie::algebra::affine<3>::translation(3.f, -2.f, 7.f);
+                return covfie::field<B>(covfie::make_parameter_pack(typename B::configuration_t(a), std::monostate{}, typename core_f::configuration_t{61, 53, 47})); };
+            huge_case<cb::affine<cb::linear<core_f>>, cb::affine<cb::nearest_neighbour<core_d>>>("affine-linear-float3-61x53x47", mk, r, tmp, out);
+        }
+        if (more) {
+            huge_case<cb::strided<sz<3>, arr<double, 3>>, cb::strided<sz<3>, arr<float, 3>>>("strided3-double3-96", st3(96, 96, 96), r, tmp, out);
+            huge_case<cb::strided<sz<3>, arr<float, 4>>, cb::strided<sz<3>, arr<double, 4>>>("strided3-float4-101x99x97", st3(101, 99, 97), r, tmp, out);
+            huge_case<cb::strided<sz<1>, arr<float, 3>>, cb::strided<sz<1>, arr<double, 3>>>("strided1-float3-2^21+1", st1((1u << 21) + 1), r, tmp, out);
         }
         summary({{"events", g_cases}});
     } else if (mode == "floats") {   // TLC-emitted (float, Widen(float)) and (double, Narrow(double)) limb pairs vs the conversions the loader uses
